@@ -140,6 +140,9 @@ func validateAll(rep *core.Report, outs []*outcome) {
 				if ok {
 					mu.Lock()
 					accepted += len(batch)
+					for _, o := range batch {
+						o.acc = true
+					}
 					mu.Unlock()
 					return
 				}
@@ -149,6 +152,9 @@ func validateAll(rep *core.Report, outs []*outcome) {
 				bad := batch[last]
 				mu.Lock()
 				accepted += last
+				for _, o := range batch[:last] {
+					o.acc = true
+				}
 				rejected++
 				nrej++
 				p := saveLog(fmt.Sprintf("rejected-%s-%d-%d", rep.Args.Tier, rep.Args.Seed, rejected), bad.log)
@@ -179,7 +185,7 @@ func validateAll(rep *core.Report, outs []*outcome) {
 func selfTest(rep *core.Report, outs []*outcome) {
 	var pick *outcome
 	for _, o := range outs {
-		if o.quies && len(o.fails) == 0 && len(o.mism) == 0 && o.sc.Cfg.TTL == 300 && !strings.HasPrefix(o.sc.Source, "static") {
+		if o.acc && o.quies && len(o.fails) == 0 && len(o.mism) == 0 && o.sc.Cfg.TTL == 300 && !strings.HasPrefix(o.sc.Source, "static") {
 			n := 0
 			for _, e := range o.log {
 				if e.Ev == "call" && e.C == "RENEW" && e.A == "ok" {
@@ -193,8 +199,8 @@ func selfTest(rep *core.Report, outs []*outcome) {
 	}
 	if pick == nil {
 		for _, o := range outs {
-			if len(o.fails) > 0 {
-				rep.Note("self-test skipped: every candidate run has monitor failures")
+			if len(o.fails) > 0 || !o.acc {
+				rep.Note("self-test skipped: no accepted run without monitor failures that renews a lease")
 				return
 			}
 		}
